@@ -139,6 +139,13 @@ def make_raft_crate(scratch):
     if src.count(needle) != 1:
         raise RuntimeError(f"raft.rs: expected exactly one `{needle}`, found {src.count(needle)}")
     src = src.replace(needle, "use crate::vclock::Instant;")
+    # the file's own unit-test module (needs tokio/anyhow, irrelevant here) is cut so
+    # that native replay (`cargo kani playback`, which builds cfg(test)) compiles
+    tm = "\n#[cfg(test)]\nmod test {"
+    if src.count(tm) > 1:
+        raise RuntimeError("raft.rs: more than one `#[cfg(test)] mod test`")
+    if src.count(tm) == 1:
+        src = src[:src.index(tm)] + "\n"
     harness = ""
     for fn in sorted(os.listdir(HARNESS_RAFT)):
         if fn.endswith("_h.rs"):
@@ -146,7 +153,7 @@ def make_raft_crate(scratch):
     src += "\n// ---- verification harness (appended by /verif/driver/check.py) ----\n"
     src += "#[cfg(kani)]\n#[allow(unused, dead_code)]\npub(crate) mod verif_h {\nuse super::*;\n" + harness + "\n}\n"
     open(os.path.join(d, "src", "raft.rs"), "w").write(src)
-    shutil.copy(os.path.join(HARNESS_RAFT, "main.rs"), os.path.join(d, "src", "main.rs"))
+    shutil.copy(os.path.join(HARNESS_RAFT, "lib.rs"), os.path.join(d, "src", "lib.rs"))
     open(os.path.join(d, "Cargo.toml"), "w").write(
         '[package]\nname = "raftcheck"\nversion = "0.0.0"\nedition = "2024"\n\n[workspace]\n\n'
         '[dependencies]\nserde = { version = "1", features = ["derive"] }\n'
@@ -321,7 +328,8 @@ def replay_counterexample(h, scratch, prop):
     tdir = os.path.join(scratch, "t_" + name)
     log = os.path.join(scratch, name + ".playback.log")
     cmd = kani_cmd(h, tdir, extra=["-Z", "concrete-playback", "--concrete-playback=print"])
-    rc, _ = run_limited(cmd, cwd, env, float(h["timeout"]) * TIMEOUT_SCALE * 1.5, float(h["mem"]), log)
+    # producing the trace needs far more memory (kani-driver parses CBMC's JSON trace)
+    rc, _ = run_limited(cmd, cwd, env, float(h["timeout"]) * TIMEOUT_SCALE * 1.5, max(24.0, float(h["mem"]) * 2), log)
     text = open(log, errors="replace").read()
     test = extract_playback_test(text)
     os.makedirs(os.path.join(REPLAY_DIR, prop), exist_ok=True)
